@@ -274,4 +274,253 @@ theorem cutTab_of_noTab (n : List Char) (h : '\t' ∉ n) : cutTab n = n := by
     have hr : '\t' ∉ r := fun e => h (by simp [e])
     simp [hc, ih hr]
 
+theorem splitLinesAux_line (l rest cur : List Char) (h : '\n' ∉ l) :
+    splitLinesAux (l ++ '\n' :: rest) cur = (cur.reverse ++ l) :: splitLinesAux rest [] := by
+  induction l generalizing cur with
+  | nil => simp [splitLinesAux]
+  | cons c r ih =>
+    have hc : c ≠ '\n' := fun e => h (by simp [e])
+    have hr : '\n' ∉ r := fun e => h (by simp [e])
+    simp only [List.cons_append, splitLinesAux, hc, if_false]
+    rw [ih _ hr]
+    simp
+
+theorem splitLinesAux_lines {α : Type} (f : α → List Char) (t : List α) (h : ∀ s ∈ t, '\n' ∉ f s) :
+    splitLinesAux (t.map (fun s => f s ++ ['\n'])).flatten [] = t.map f := by
+  induction t with
+  | nil => simp [splitLinesAux]
+  | cons x r ih =>
+    simp only [List.map_cons, List.flatten_cons, List.append_assoc, List.singleton_append]
+    rw [splitLinesAux_line _ _ _ (h x (by simp)), ih (fun s hs => h s (by simp [hs]))]
+    simp
+
+theorem decDigit_ne_nl : ∀ d, decDigit d ≠ '\n' := by
+  intro d; unfold decDigit; split <;> decide
+
+theorem decDigitsAux_no_nl (fuel n : Nat) (acc : List Char) (h : '\n' ∉ acc) :
+    '\n' ∉ decDigitsAux fuel n acc := by
+  induction fuel generalizing n acc with
+  | zero => simpa [decDigitsAux] using h
+  | succ k ih =>
+    have hacc : '\n' ∉ decDigit (n % 10) :: acc := by
+      intro hm
+      rcases List.mem_cons.mp hm with e | e
+      · exact decDigit_ne_nl _ e.symm
+      · exact h e
+    simp only [decDigitsAux]
+    split
+    · exact hacc
+    · exact ih _ _ hacc
+
+theorem decDigits_no_nl (n : Nat) : '\n' ∉ decDigits n :=
+  decDigitsAux_no_nl _ _ _ (by simp)
+
+
+/-- what `save_module_symbol_file` can write and `load_module_symbol_file` reads back unchanged -/
+structure SaveOk (s : Sym) : Prop where
+  addr : s.addr < U64
+  sizePos : 0 < s.size
+  sizeLt : s.size < 0xa0000000
+  type : s.type ∈ allowedTypes
+  typeNe : s.type ≠ '?'
+  noTab : '\t' ∉ s.name
+  noNl : '\n' ∉ s.name
+  notEnd : isSymbolEnd s.name = false
+
+/-- no two consecutive entries with the same (addr, type) -/
+def NoAdjDup : List Sym → Prop
+  | [] => True
+  | [_] => True
+  | a :: b :: r => ¬ (a.addr = b.addr ∧ a.type = b.type) ∧ NoAdjDup (b :: r)
+
+/-- the header lines of a saved file -/
+def hdrLines (n : Nat) (path bid : List Char) : List (List Char) :=
+  ["# symbols: ".toList ++ decDigits n, "# path name: ".toList ++ path] ++
+    (if bid.isEmpty then [] else ["# build-id: ".toList ++ bid])
+
+
+theorem splitLines_save (off : Nat) (path bid : List Char) (t : List Sym)
+    (hp : '\n' ∉ path) (hb : '\n' ∉ bid) (hl : ∀ s ∈ t, '\n' ∉ saveLine off s) (hne : t ≠ []) :
+    splitLines (save off path bid t) = hdrLines t.length path bid ++ t.map (saveLine off) := by
+  have h1 : '\n' ∉ "# symbols: ".toList ++ decDigits t.length := by
+    intro hm
+    rcases List.mem_append.mp hm with e | e
+    · revert e; decide
+    · exact decDigits_no_nl _ e
+  have h2 : '\n' ∉ "# path name: ".toList ++ path := by
+    intro hm
+    rcases List.mem_append.mp hm with e | e
+    · revert e; decide
+    · exact hp e
+  have h3 : '\n' ∉ "# build-id: ".toList ++ bid := by
+    intro hm
+    rcases List.mem_append.mp hm with e | e
+    · revert e; decide
+    · exact hb e
+  have hte : t.isEmpty = false := by cases t <;> simp_all
+  have line2 : ∀ (a b rest : List Char), '\n' ∉ a ++ b →
+      splitLinesAux (a ++ (b ++ '\n' :: rest)) [] = (a ++ b) :: splitLinesAux rest [] := by
+    intro a b rest h
+    rw [← List.append_assoc, splitLinesAux_line _ _ _ h]; simp
+  unfold splitLines save header hdrLines
+  rw [hte]
+  by_cases hbe : bid.isEmpty = true
+  · simp only [hbe, Bool.false_eq_true, if_false, if_true, List.append_nil, List.append_assoc,
+      List.cons_append, List.nil_append]
+    rw [line2 _ _ _ h1, line2 _ _ _ h2, splitLinesAux_lines _ _ hl]
+  · simp only [hbe, Bool.false_eq_true, if_false, List.append_assoc,
+      List.cons_append, List.nil_append]
+    rw [line2 _ _ _ h1, line2 _ _ _ h2, line2 _ _ _ h3, splitLinesAux_lines _ _ hl]
+
+
+theorem hexFixed_no_nl (w n : Nat) : '\n' ∉ hexFixed w n := by
+  induction w with
+  | zero => simp [hexFixed]
+  | succ w ih =>
+    simp only [hexFixed, List.mem_cons, not_or]
+    exact ⟨fun e => (hexDigit_facts _ (Nat.mod_lt _ (by decide))).2.2.2.2.2.2.1 e.symm, ih⟩
+
+theorem allowed_ne_nl : ∀ c ∈ allowedTypes, c ≠ '\n' ∧ c ≠ 'X' := by decide
+
+theorem saveLine_eq (off : Nat) (s : Sym) : saveLine off s =
+    hexFixed 16 (saveLine.sub64 s.addr off) ++
+      ' ' :: (hexFixed 8 (s.size % U32) ++ ' ' :: s.type :: ' ' :: s.name) := rfl
+
+theorem saveLine_no_nl (off : Nat) (s : Sym) (h : SaveOk s) : '\n' ∉ saveLine off s := by
+  rw [saveLine_eq]
+  simp only [List.mem_append, List.mem_cons, not_or]
+  refine ⟨hexFixed_no_nl _ _, by decide, hexFixed_no_nl _ _, by decide, ?_, by decide, h.noNl⟩
+  exact fun e => (allowed_ne_nl _ h.type).1 e.symm
+
+theorem parseLine_saveLine (off : Nat) (s : Sym) (h : SaveOk s) :
+    parseLine (saveLine off s) = some (saveLine.sub64 s.addr off, s.size, s.type, s.name) := by
+  have h1 := h.sizeLt
+  have hS : s.size % U32 = s.size := Nat.mod_eq_of_lt (by unfold U32; omega)
+  have hA : saveLine.sub64 s.addr off < U64 := by unfold saveLine.sub64 U64; omega
+  have key := parseLine_saved (saveLine.sub64 s.addr off) s.size s.type s.name hA h1
+  rw [saveLine_eq, hS, key, hS, cutTab_of_noTab _ h.noTab]
+
+theorem sub64_add (a off : Nat) (h : a < U64) : (saveLine.sub64 a off + off) % U64 = a := by
+  unfold saveLine.sub64
+  have h1 : off % U64 < U64 := Nat.mod_lt _ (by unfold U64; decide)
+  have h2 : (a + U64 - off % U64) % U64 = if off % U64 ≤ a then a - off % U64 else a + U64 - off % U64 := by
+    split
+    · rw [show a + U64 - off % U64 = (a - off % U64) + U64 by omega, Nat.add_mod_right]
+      exact Nat.mod_eq_of_lt (by omega)
+    · exact Nat.mod_eq_of_lt (by omega)
+  rw [h2, Nat.add_mod, ]
+  split
+  · rw [Nat.mod_eq_of_lt (show a - off % U64 < U64 by omega)]
+    rw [show a - off % U64 + off % U64 = a by omega]
+    exact Nat.mod_eq_of_lt h
+  · rw [Nat.mod_eq_of_lt (show a + U64 - off % U64 < U64 by omega)]
+    rw [show a + U64 - off % U64 + off % U64 = a + U64 by omega, Nat.add_mod_right]
+    exact Nat.mod_eq_of_lt h
+
+theorem loadLine_hash (off : Nat) (st : LdSt) (r : List Char) : loadLine off st ('#' :: r) = st := by
+  have : parseLine ('#' :: r) = none := by simp [parseLine]
+  unfold loadLine
+  rw [this]
+
+theorem loadFields_fresh (off : Nat) (st : LdSt) (addr size : Nat) (ty : Char) (name : List Char)
+    (hdup : ¬ (addr = st.prevAddr ∧ ty = st.prevType))
+    (hty : ty ∈ allowedTypes) (hq : ty ≠ '?') (hne : isSymbolEnd name = false)
+    (hhead : ∀ x r, st.rev = x :: r → x.size ≠ 0) :
+    loadFields off st addr size ty name =
+      { rev := { addr := (addr + off) % U64, size := size, type := ty, name := name } :: st.rev,
+        prevAddr := addr, prevType := ty } := by
+  have hfill : ∀ a, fillLast st.rev a = st.rev := by
+    intro a
+    unfold fillLast
+    split
+    · rename_i x r heq
+      rw [if_neg (hhead x r heq)]
+    · rename_i heq; exact heq.symm
+  unfold loadFields
+  rw [if_neg hdup, if_neg (by simpa using hty)]
+  simp only
+  rw [if_neg (by simp [hq, hne]), hfill]
+
+theorem loadLine_of_parse (off : Nat) (st : LdSt) (line : List Char) (a sz : Nat) (ty : Char)
+    (nm : List Char) (h : parseLine line = some (a, sz, ty, nm)) :
+    loadLine off st line = loadFields off st a sz ty nm := by
+  unfold loadLine
+  rw [h]
+
+theorem loadLine_saved (off : Nat) (st : LdSt) (s : Sym) (h : SaveOk s)
+    (hdup : ¬ (saveLine.sub64 s.addr off = st.prevAddr ∧ s.type = st.prevType))
+    (hhead : ∀ x r, st.rev = x :: r → x.size ≠ 0) :
+    loadLine off st (saveLine off s) =
+      { rev := s :: st.rev, prevAddr := saveLine.sub64 s.addr off, prevType := s.type } := by
+  rw [loadLine_of_parse off st _ _ _ _ _ (parseLine_saveLine off s h),
+    loadFields_fresh off st _ _ _ _ hdup h.type h.typeNe h.notEnd hhead, sub64_add _ _ h.addr]
+
+theorem sub64_inj (a b off : Nat) (ha : a < U64) (hb : b < U64)
+    (h : saveLine.sub64 a off = saveLine.sub64 b off) : a = b := by
+  rw [← sub64_add a off ha, ← sub64_add b off hb, h]
+
+/-- the duplicate test of the loader never fires along the saved lines -/
+def Chain (off : Nat) : Nat → Char → List Sym → Prop
+  | _, _, [] => True
+  | pa, pt, s :: r => ¬ (saveLine.sub64 s.addr off = pa ∧ s.type = pt) ∧
+      Chain off (saveLine.sub64 s.addr off) s.type r
+
+theorem chain_of_noAdjDup (off : Nat) (p : Sym) (t : List Sym) (hp : p.addr < U64)
+    (ht : ∀ s ∈ t, s.addr < U64) (h : NoAdjDup (p :: t)) :
+    Chain off (saveLine.sub64 p.addr off) p.type t := by
+  induction t generalizing p with
+  | nil => trivial
+  | cons s r ih =>
+    obtain ⟨h1, h2⟩ := h
+    refine ⟨?_, ih s (ht s (by simp)) (fun x hx => ht x (by simp [hx])) h2⟩
+    intro ⟨e1, e2⟩
+    exact h1 ⟨(sub64_inj _ _ off (ht s (by simp)) hp e1).symm, e2.symm⟩
+
+theorem foldl_saved (off : Nat) (t : List Sym) :
+    ∀ (st : LdSt), (∀ s ∈ t, SaveOk s) → Chain off st.prevAddr st.prevType t →
+      (∀ x r, st.rev = x :: r → x.size ≠ 0) →
+      ((t.map (saveLine off)).foldl (loadLine off) st).rev = t.reverse ++ st.rev := by
+  induction t with
+  | nil => intro st _ _ _; simp
+  | cons s r ih =>
+    intro st hok hch hhead
+    obtain ⟨hd, hch'⟩ := hch
+    have hs := hok s (by simp)
+    simp only [List.map_cons, List.foldl_cons]
+    rw [loadLine_saved off st s hs hd hhead]
+    rw [ih _ (fun x hx => hok x (by simp [hx])) hch']
+    · simp
+    · intro x r' heq
+      simp only [List.cons.injEq] at heq
+      rw [← heq.1]
+      have := hs.sizePos
+      omega
+
+theorem foldl_hash (off : Nat) (ls : List (List Char)) (st : LdSt)
+    (h : ∀ l ∈ ls, ∃ r, l = '#' :: r) : ls.foldl (loadLine off) st = st := by
+  induction ls generalizing st with
+  | nil => rfl
+  | cons l r ih =>
+    obtain ⟨x, hx⟩ := h l (by simp)
+    simp only [List.foldl_cons]
+    rw [hx, loadLine_hash]
+    exact ih st (fun l' hl' => h l' (by simp [hl']))
+
+theorem hdrLines_hash (n : Nat) (path bid : List Char) :
+    ∀ l ∈ hdrLines n path bid, ∃ r, l = '#' :: r := by
+  have e1 : "# symbols: ".toList = '#' :: " symbols: ".toList := by decide
+  have e2 : "# path name: ".toList = '#' :: " path name: ".toList := by decide
+  have e3 : "# build-id: ".toList = '#' :: " build-id: ".toList := by decide
+  intro l hl
+  unfold hdrLines at hl
+  simp only [List.mem_append, List.mem_cons, List.not_mem_nil, or_false] at hl
+  rcases hl with (h | h) | h
+  · exact ⟨_, by rw [h, e1]; rfl⟩
+  · exact ⟨_, by rw [h, e2]; rfl⟩
+  · split at h
+    · simp at h
+    · simp only [List.mem_singleton] at h
+      exact ⟨_, by rw [h, e3]; rfl⟩
+
+
 end Uft.SymFile
